@@ -267,6 +267,15 @@ def run_case(concepts, case, spec):
                 judge_order(common.tie(lat2, ctx), cap, 'second_lattice')
                 common.drop_views()
             COL.count('second_lattice_on_same_context')
+    if hash(gen.table_key(case)) % 5 == 1:      # the cached lattice is dropped and computed again
+        vars(ctx).pop('lattice', None)
+        lat3 = common.get_lattice(ctx)
+        if lat3 is not RAISED:
+            with core.monitor_code():
+                common.drop_views()
+                judge_order(lat3, cap, 'recomputed')
+                common.drop_views()
+            COL.count('lattice_recomputed_after_dropping_the_cache')
     # session: queries on the new lattice, then re-judge an older live lattice
     members = list(lat)
     for _ in range(6):
